@@ -84,6 +84,8 @@ def obligations(tier):
     obs.append(Ob("twin.some_exit", mod, "twin_some_exit", {}, expect="refute", timeout=60))
     obs.append(Ob("twin.some_pass", mod, "twin_some_pass", {}, expect="refute", timeout=60))
     obs.append(Ob("L2.update_order", mod, "update_order", {}, timeout=120))
+    # nothing but the configured files is staged, whatever hooks are configured (the commit-step lemma of C10)
+    obs.append(Ob("L4.only_configured_files_staged", "c10.py", "commit_sequence", {}, timeout=t))
     # the set compared with git's status paths is keyed by canonical relative paths, however the config spells them
     obs.append(Ob("L3.configured_paths_canonical", "c03.py", "merge_file_patterns", {}, timeout=t))
     return obs
